@@ -49,7 +49,7 @@ func writeManifest() {
 		PropertyID string `json:"property_id"`
 		Reason     string `json:"reason"`
 	}
-	var nas []na
+	nas := []na{}
 	for i := 1; i <= 20; i++ {
 		id := fmt.Sprintf("C%02d", i)
 		if _, ok := specs[id]; !ok {
